@@ -440,16 +440,25 @@ theorem predict_reject {d : Spec.Dir} {b : Bytes} {c : UInt8} (h0 : b[0]? = some
 /-- a TCP response attempt on at most eight bytes never finds a frame (the shortest is 7 + 2) -/
 theorem tcp_attemptRsp_short (p : Bytes) (hne : p ≠ []) (hl : p.length ≤ 8) :
     Tcp.attemptRsp p = .ok none ∨ ∃ e, Tcp.attemptRsp p = .err e := by
-  unfold Tcp.attemptRsp mkAttempt
-  rw [tcp_responsePduLen_eq]
-  cases hp : Spec.predict 7 .rsp p with
-  | incomplete => left; rfl
-  | reject => right; exact ⟨_, rfl⟩
-  | len n =>
-    left
-    have h2 := predict_rsp_ge2 7 p n hp
-    have hb := (predict_len_bounds 7 .rsp p n hp).2
-    simp only [predRes, Res.bind'_ok, tcp_extractFrame_short p n hne hb (by omega), Res.map_ok]
+  rcases Tcp.checkProtocolId_cases p with hc | ⟨_, _, hc⟩
+  · rw [Tcp.attemptRsp_eq, Tcp.attemptOf_proto_ok _ hc]
+    unfold mkAttempt
+    rw [tcp_responsePduLen_eq]
+    cases hp : Spec.predict 7 .rsp p with
+    | incomplete => left; rfl
+    | reject => right; exact ⟨_, rfl⟩
+    | len n =>
+      have h2 := predict_rsp_ge2 7 p n hp
+      have hb := (predict_len_bounds 7 .rsp p n hp).2
+      rcases Tcp.checkLengthField_cases p n with hf | ⟨_, _, hf⟩
+      · left
+        simp only [predRes, Res.bind'_ok, tcp_extractFrame_short p n hne hb hc hf (by omega), Res.map_ok]
+      · right
+        refine ⟨.lengthMismatch (rd16 p[4] p[5]).toNat (n + 1), ?_⟩
+        simp only [predRes, Res.bind'_ok,
+          Tcp.extractFrame_len_err hne (by unfold usizeLimit; omega) hc hf, Res.map_err]
+  · right
+    exact ⟨_, by rw [Tcp.attemptRsp_eq]; exact Tcp.attemptOf_proto_err _ hc⟩
 
 /-- an RTU response attempt on at most four bytes never finds a frame (the shortest is 3 + 2) -/
 theorem rtu_attemptRsp_short (p : Bytes) (hne : p ≠ []) (hl : p.length ≤ 4) :
@@ -485,7 +494,9 @@ theorem tcp_decodeRsp_unknown (tid : UInt16) (uid : UInt8) (pdu : Bytes) (c : UI
     simpa using this
   -- the attempt at offset 0 is an error
   have h1 : Tcp.attemptRsp (Spec.tcpFrame tid uid pdu) = .err (.fnCode ((Spec.tcpFrame tid uid pdu)[7]?.getD 0)) := by
-    unfold Tcp.attemptRsp mkAttempt
+    rw [Tcp.attemptRsp_eq, Tcp.attemptOf_proto_ok _
+      (by simpa using (tcp_checks_frame tid uid pdu [] (by omega)).1)]
+    unfold mkAttempt
     rw [tcp_responsePduLen_eq]
     have e := tcpFrame_split tid uid pdu []
     rw [List.append_nil] at e
